@@ -25,6 +25,13 @@ C->S : seeded meshes (empty, points only, one triangle, fans, tetrahedra,
        winding instance enumerated by TLC (S->C) and seeded meshes x integer
        matrices (C->S).  The sign of the determinant is decided exactly on the
        integer matrix (Mesh!ScaledWindingClause).
+       Special-looking transforms for mesh-to-precomputed --coord-transform
+       (real command line, 12- and 16-element forms): pure translations
+       (identity linear part, non-zero translation, also written 1.0 / 1.00),
+       the identity, signed permutations and diagonal +-1 matrices with a
+       translation, quarter turns without translation - judged by
+       oracle:Scaling (every vertex at M.v + t, in nanometres) and the
+       winding rule.
        Link tables in conflict: one label on several rows (also with different
        zero padding), and link file names that collide with uncompressed files
        already present (a fragment named after its label with
@@ -206,6 +213,54 @@ def tool_spec(ctx, via="inproc"):
             "expect": expect, "via": via}
 
 
+IDENTITY3 = [[1, 0, 0], [0, 1, 0], [0, 0, 1]]
+
+
+def special_tool_spec(ctx, rng, k, via="inproc"):
+    """mesh-to-precomputed through the real command line with 'special-looking'
+    --coord-transform values: identity linear part with a non-zero translation
+    (pure translation), the identity itself, signed permutations / diagonal +-1
+    with a translation, rotations with a zero translation; 12- and 16-element
+    argument forms"""
+    shim = type("RngOnly", (), {"rng": rng})()          # tool_spec draws from .rng only
+    while True:
+        spec = tool_spec(shim)
+        if spec["expect"] == "ok" and len(spec["v"]) >= 1:
+            break
+    style = ["translation", "translation", "translation", "identity", "signed_perm", "diag_pm1",
+             "rotation_no_translation"][k % 7]
+
+    def nonzero_tr():
+        while True:
+            tr = [rng.choice([0, 0, 1, -1, 2, 5, -7, 20, rng.randint(-20, 20)]) for _ in range(3)]
+            if any(tr):
+                return tr
+
+    mb = 0
+    if style == "translation":
+        M, tr, mb = [list(r) for r in IDENTITY3], nonzero_tr(), rng.choice([0, 0, 1, 2])
+        M = [[x << mb for x in r] for r in M]          # the identity, in the unit 2^-mb
+    elif style == "identity":
+        M, tr = [list(r) for r in IDENTITY3], [0, 0, 0]
+    elif style == "signed_perm":
+        p = [0, 1, 2]
+        rng.shuffle(p)
+        M = [[(rng.choice([-1, 1]) if c == p[r] else 0) for c in range(3)] for r in range(3)]
+        tr = nonzero_tr()
+    elif style == "diag_pm1":
+        M = [[(rng.choice([-1, 1]) if c == r else 0) for c in range(3)] for r in range(3)]
+        tr = nonzero_tr()
+    else:
+        a, b = rng.sample(range(3), 2)                 # quarter turn about the third axis
+        M = [list(r) for r in IDENTITY3]
+        M[a][a], M[b][b], M[a][b], M[b][a] = 0, 0, -1, 1
+        tr = [0, 0, 0]
+    spec["xf"] = {"M": M, "mb": mb, "tr": tr, "n": (12, 16)[(k // 7) % 2],
+                  "det": "pos" if md.det3(*M) > 0 else "neg", "style": style}
+    spec["via"] = via
+    return spec
+
+
 def links_spec(ctx, via="inproc"):
     rng = ctx.rng
     nrows = rng.choice([0, 1, 1, 2, 3, 5, 8])
@@ -355,7 +410,8 @@ def sig_of(mode, spec, source, case, clause, pos):
                    unit_change_exp10=spec.get("sc", 0))
     elif mode == "tool":
         xf = spec.get("xf")
-        sig.update(expect=spec["expect"], hasxf=bool(xf),
+        sig.update(expect=spec["expect"], hasxf=bool(xf), xf_style=(xf or {}).get("style", ""),
+                   xf_form=(xf or {}).get("n", 0),
                    det_sign=((md.det3(*xf["M"]) > 0) - (md.det3(*xf["M"]) < 0)) if xf else 1,
                    gzip=spec.get("gzip", True), via=spec.get("via"), rc=case["rc"], exc=case["exc"],
                    info_mesh=spec["info_mesh"], meshdir_arg=spec["meshdir_arg"], nt=len(spec["t"]))
@@ -444,6 +500,12 @@ def run(ctx):
             todo.append(("affine", dict(spec, sc=sc, mb=0, vdtype=("float32", "float64")[k % 2]), "gen-scaled"))
     for k in range(n(240, 6000)):
         todo.append(("affine", scaled_affine_spec(rng2, UNIT_CHANGES[k % 4]), "random-scaled"))
+    # special-looking --coord-transform values through the real command line
+    rng4 = random.Random(ctx.seed * 1000003 + 17 + 3 * 7919)
+    for k in range(n(70, 1400)):
+        todo.append(("tool", special_tool_spec(ctx, rng4, k), "random-special-transform"))
+    for k in range(n(2, 14)):
+        todo.append(("tool", special_tool_spec(ctx, rng4, 7 * k, via="subproc"), "random-special-transform"))
     # link tables in conflict with themselves / with files already present
     rng3 = random.Random(ctx.seed * 1000003 + 17 + 2 * 7919)
     for _ in range(n(80, 1500)):
